@@ -222,6 +222,11 @@ func (e *SpecEnv) ident(name string, inOld bool) Val {
 	case "$alloc":
 		return Val{vc.curIn(e.st(inOld), vc.allocKey()), nil, SInt}
 	}
+	if e.useLocals && inOld {
+		if pv, ok := vc.paramVals[name]; ok {
+			return pv
+		}
+	}
 	if e.useLocals {
 		// name or name#k
 		base, k := name, 1
@@ -418,11 +423,11 @@ func (e *SpecEnv) ex(x *SpecExpr, inOld bool) Val {
 			}
 			return Val{sx("mk-slice", sx("sl.base", s.S), sx("+", sx("sl.off", s.S), lo), sx("-", hi, lo), sx("-", sx("sl.cap", s.S), lo)), s.T, SSlice}
 		case SStr:
-			hi = sx("str.len", s.S)
+			hi = sx("gs.len", s.S)
 			if x.Args[2].Op != "none" {
 				hi = e.ex(x.Args[2], inOld).S
 			}
-			return Val{sx("str.sub", s.S, lo, hi), s.T, SStr}
+			return Val{sx("gs.sub", s.S, lo, hi), s.T, SStr}
 		}
 		e.fail("slice expression on sort %s", s.K)
 	case "call":
@@ -499,7 +504,7 @@ func (e *SpecEnv) bin(x *SpecExpr, inOld bool) Val {
 			return Val{sx(m[op], "RNE", a.S, b.S), a.T, SF64}
 		}
 		if a.K == SStr && op == "+" {
-			return Val{sx("str.cat", a.S, b.S), a.T, SStr}
+			return Val{sx("gs.cat", a.S, b.S), a.T, SStr}
 		}
 		if a.K != SInt || b.K != SInt {
 			e.fail("arithmetic on sorts %s,%s in %s", a.K, b.K, x)
@@ -622,7 +627,7 @@ func (e *SpecEnv) index(x *SpecExpr, inOld bool) Val {
 	switch t := b.T.Underlying().(type) {
 	case *types.Slice:
 		key, es := vc.memKey(t.Elem())
-		return Val{sSelect(sSelect(vc.curIn(st, key), sx("sl.base", b.S)), sx("+", sx("sl.off", b.S), i.S)), t.Elem(), es}
+		return Val{sSelect(sSelect(vc.curIn(st, key), sx("sl.base", b.S)), sx("sl.ix", sx("sl.off", b.S), i.S)), t.Elem(), es}
 	case *types.Array:
 		return Val{sSelect(b.S, i.S), t.Elem(), vc.sorts.sortOf(t.Elem())}
 	case *types.Map:
@@ -630,7 +635,7 @@ func (e *SpecEnv) index(x *SpecExpr, inOld bool) Val {
 		return Val{sSelect(sSelect(vc.curIn(st, val), b.S), i.S), t.Elem(), vs}
 	case *types.Basic:
 		if isString(b.T) {
-			return Val{sx("str.at", b.S, i.S), types.Typ[types.Uint8], SInt}
+			return Val{sx("gs.at", b.S, i.S), types.Typ[types.Uint8], SInt}
 		}
 	case *types.Pointer:
 		if at, ok := t.Elem().Underlying().(*types.Array); ok {
@@ -670,7 +675,7 @@ func (e *SpecEnv) call(x *SpecExpr, inOld bool) Val {
 		case SSlice:
 			return Val{sx("sl.len", a.S), types.Typ[types.Int], SInt}
 		case SStr:
-			return Val{sx("str.len", a.S), types.Typ[types.Int], SInt}
+			return Val{sx("gs.len", a.S), types.Typ[types.Int], SInt}
 		}
 		if a.T != nil {
 			switch t := a.T.Underlying().(type) {
@@ -906,4 +911,50 @@ func (e *SpecEnv) lookupFunc(name string) *ssa.Function {
 		return nil
 	}
 	return sp.Func(name)
+}
+
+// conjuncts translates a boolean contract expression into its top-level conjuncts (through && and predicate
+// applications), so that each becomes its own obligation.
+func (e *SpecEnv) conjuncts(x *SpecExpr, inOld bool) []string {
+	if x.Op == "bin" && x.Name == "&&" {
+		return append(e.conjuncts(x.Args[0], inOld), e.conjuncts(x.Args[1], inOld)...)
+	}
+	if x.Op == "old" {
+		return e.conjuncts(x.Args[0], true)
+	}
+	if x.Op == "call" && x.Args[0].Op == "id" {
+		if pr := e.lookupPred(x.Args[0].Name); pr != nil && (pr.RetTy == "" || pr.RetTy == "bool") && len(x.Args)-1 == len(pr.Params) {
+			for _, s := range e.predStack {
+				if s == pr.Pkg+"."+pr.Name {
+					return []string{e.ex(x, inOld).S}
+				}
+			}
+			sub := &SpecEnv{vc: e.vc, vars: map[string]Val{}, cur: e.cur, old: e.old, pkg: e.vc.eng.pkgByName(pr.Pkg), depth: e.depth + 10, predStack: append(e.predStack, pr.Pkg+"."+pr.Name), witFn: e.witFn}
+			if sub.pkg == nil {
+				sub.pkg = e.pkg
+			}
+			for i, p := range pr.Params {
+				av := e.ex(x.Args[i+1], inOld)
+				if av.K == "Nil" {
+					t, k := sub.specType(p.Type)
+					av = Val{e.nilOf(Val{"", t, k}), t, k}
+				}
+				if av.T == nil {
+					if t, _ := sub.specType(p.Type); t != nil {
+						av.T = t
+					}
+				}
+				sub.vars[p.Name] = av
+			}
+			r := sub.conjuncts(pr.Body, inOld)
+			e.side = append(e.side, sub.side...)
+			e.depth = sub.depth
+			return r
+		}
+	}
+	v := e.ex(x, inOld)
+	if v.K != SBool {
+		e.fail("expected boolean expression, got sort %s in %s", v.K, x)
+	}
+	return []string{v.S}
 }
